@@ -32,6 +32,8 @@ type Property struct {
 
 var properties = map[string]*Property{}
 
+var verbose bool
+
 func register(p *Property) { properties[p.ID] = p }
 
 var baseTrusted = []string{"go/packages + go/types (type-checked program of /repo's working tree)", "go/ssa of golang.org/x/tools v0.29.0", "the checker's own rule code (/verif/checker)"}
@@ -44,6 +46,7 @@ func main() {
 	replay := flag.String("replay", "", "replay a violation file")
 	flag.StringVar(&knownPath, "known", "", "known-findings file (default <verif>/known_findings.json)")
 	dump := flag.String("dump", "", "debug: dump edge facts of the named function")
+	flag.BoolVar(&verbose, "v", false, "print every obligation")
 	flag.Parse()
 	debug.SetGCPercent(400)
 	if *tier == "" {
